@@ -139,6 +139,12 @@ class SliceDomain:
             return z3.Not(self._bool(self._ev(node.operand, tt, defs, consts, p)))
         if isinstance(node, ast.Attribute) and ast.unparse(node) == 'sql.Token(ttype, value).is_whitespace':
             return tt in self.tb.T.Whitespace
+        if (isinstance(node, ast.Call) and isinstance(node.func, ast.Attribute) and node.func.attr == 'join'
+                and isinstance(node.func.value, ast.Constant) and node.func.value.value == ' ' and len(node.args) == 1):
+            inner = self._ev(node.args[0], tt, defs, consts, p)
+            if isinstance(inner, SymStr) and inner.kind == 'upper_split':
+                return SymStr('upper_collapsed')
+            raise py2smt.Unsupported(f"' '.join over {ast.unparse(node.args[0])}")
         if isinstance(node, ast.Call) and isinstance(node.func, ast.Attribute):
             base = self._ev(node.func.value, tt, defs, consts, p)
             meth = node.func.attr
@@ -147,11 +153,13 @@ class SliceDomain:
                     return SymStr('upper')
                 if meth == 'split' and base.kind == 'raw' and not node.args:
                     return SymStr('split')
+                if meth == 'split' and base.kind == 'upper' and not node.args:
+                    return SymStr('upper_split')
                 if meth == 'startswith' and len(node.args) == 1:
                     c = self._concrete(node.args[0], tt, consts)
                     if not isinstance(c, str):
                         raise py2smt.Unsupported('startswith non-constant')
-                    return lm.slice_upper_startswith(p, e, c) if base.kind == 'upper' else \
+                    return lm.slice_upper_startswith(p, e, c) if base.kind in ('upper', 'upper_collapsed') else \
                         z3.And(e >= p + len(c), *[lm.t.c[p + k] == ord(c[k]) for k in range(len(c))]) if p + len(c) <= lm.N else F_
         if isinstance(node, ast.Subscript):
             base = self._ev(node.value, tt, defs, consts, p)
@@ -173,6 +181,10 @@ class SliceDomain:
                         if s != s.upper():
                             return F_
                         return lm.slice_upper_is(p, e, s)
+                    if a.kind == 'upper_collapsed':
+                        if s != s.upper():
+                            return F_
+                        return lm.slice_upper_collapsed_is(p, e, s)
                     if a.kind == 'first':
                         return lm.slice_firstword_is(p, e, s)
                     raise py2smt.Unsupported(a.kind)
